@@ -53,10 +53,19 @@ Judge(e) ==
                JudgeCmdExtract(S, [j \in 1..nouts |-> e.outs[j].res], rs, invert)
             [] OTHER -> V("unknown-command", "-")
 
+\* every record of a stream is treated like the first: the input record given twice yields the outputs twice
+\* (a circular split re-origins every record alike; rotate, delete, insert, extract act per record)
+Twice(e) ==
+  IF e.cmd = "infix" \/ e.status # 0 THEN {}
+  ELSE IF e.status2 # 0 THEN V("second-record-failed", "-")
+  ELSE LET n == Len(e.outs) IN
+       IF Len(e.outs2) # 2 * n THEN V("second-record-count", "-")
+       ELSE UNION {If(~SameObs(e.outs2[j], e.outs[j]) \/ ~SameObs(e.outs2[n + j], e.outs[j]), V("second-record", ToString(j))) : j \in 1..n}
+
 EvCli ==
   /\ Trace[l].ev = "cli"
   /\ LET e == Trace[l] IN
-     /\ verdicts' = verdicts \cup Tag(e, IF e.parseerr # "" THEN V("output-unreadable", "-") ELSE Judge(e))
+     /\ verdicts' = verdicts \cup Tag(e, IF e.parseerr # "" THEN V("output-unreadable", "-") ELSE Judge(e) \cup Twice(e))
      /\ njudged' = njudged + 1
 
 Consume == l <= N /\ EvCli /\ l' = l + 1
